@@ -35,6 +35,7 @@ def apply (s : S) (j : Json) : S :=
   | "evict" => step s (.evict id)
   | "resolve" => step s (.resolve id)
   | "reopen" => step s .reopen
+  | "reopen-built" => openFrom s none
   | _ => s
 
 def observe (s : S) : Json :=
